@@ -52,7 +52,11 @@ theorem combine_duplicate (o v : Val) (hv : v.isNilPrim = false) (ho : o.isNilPr
     | sub d a hd ha => simp [Val.isSub] at hns
 
 /-- a nil definition next to a real one changes nothing, whichever comes first -/
-theorem combine_nil_right (old : Option Val) : combineV old Val.nilV = .ok none := by
+theorem combine_nil_right (old : Val) : combineV (some old) Val.nilV = .ok none := by
+  unfold combineV; rfl
+
+/-- ... and a nil definition of a name that does not exist yet makes the name exist, as it does when it is visited first -/
+theorem combine_nil_new : combineV none Val.nilV = .ok (some Val.nilV) := by
   unfold combineV; rfl
 
 theorem combine_nil_left (v : Val) (hv : v.isNilPrim = false) :
